@@ -127,6 +127,21 @@ def make_specs():
                          ret=["rec", "u64", "rec"][lim - 1], shape=["a1", "a3", "a5"][lim - 1], receiver="free", gates=1 if flavour == "async" else 0)
                 s["tags"], s["events"], s["deps"] = (["t_conc"], [], []) if lim == 2 else ([], [], [])
                 specs.append(s)
+    # "never expires" family: ttls far beyond what any clock reaches (appended: earlier ids stay).
+    # Such an entry is always live; every store, hit and eviction has to work as without a ttl.
+    huge = [18446744073709551615, 9223372036854775808, 18446744073709552, 9223372037]
+    n = 0
+    for flavour in ["global", "thread", "async"]:
+        for pol in POLICIES:
+            for variant in (0, 1):
+                fid += 1
+                n += 1
+                s = dict(fid=fid, flavour=flavour, policy=pol, policy_written=pol, limit=[2, None][variant], ttl=huge[n % len(huge)],
+                         mem=[None, MEMS[n % len(MEMS)]][variant], fw=("1.5" if pol == "tlru" and n % 4 < 2 else None),
+                         scope_written={"global": None, "thread": "thread", "async": None}[flavour], name=None, cache_if=False, invalidate_on=False,
+                         ret=["u64", "string"][variant], shape=["a1", "a3"][variant], receiver="free", gates=1 if flavour == "async" else 0)
+                s["tags"], s["events"], s["deps"] = ([], [], [])
+                specs.append(s)
     return specs
 
 
